@@ -110,6 +110,8 @@ def build_shape(shape, workdir, seed):
                 rng.shuffle(order[k])
             inp["style"] = {"order": order, "enc": ["fill", "nan", "m999"], "vars": {"location": True, "lat": True, "lon": True, "altitude": True},
                             "time_type": "f8"}
+            # units that are special characters for the label renderer (relative humidity, cloud cover)
+            inp["variable"] = {"name": "RH", "units": "%", "x0": None, "x1": None}
         paths, cpath = gen.materialize(ds, d, rng)
         return paths + ["-c", cpath]
     else:
